@@ -87,7 +87,10 @@ def run(chk):
             else:
                 ok_ids = True
                 n_some = 0
-                for cs, v in normal.cases_deep(idsn):
+                # tests on the path to the call count like tests inside the value (`match list { Some(l) if !l.is_empty() => f(Some(l)) }`)
+                site_cs = [(t2, l2) for sb2, l2, t2 in (normal.conditions(N, p, co, bb, T) or [])]
+                for cs0, v in normal.cases_deep(idsn):
+                    cs = cs0 + site_cs
                     if v == normal.NONE:
                         continue
                     if not (isinstance(v, tuple) and v[:3] == ("agg", "core::option::Option", "Some") and flow.is_payload_of(dict(v[3])["0"], is_list)):
@@ -97,7 +100,7 @@ def run(chk):
                     present = any(flow.asserts_ok(t, l, is_list) for t, l in cs)
                     nonempty = any((flow.emptiness_test(t, l) or (None, None))[1] is False and flow.is_payload_of(flow.emptiness_test(t, l)[0], is_list) for t, l in cs)
                     filtered = filtered or nonempty
-                    ok_ids = ok_ids and present and all(flow.asserts_ok(t, l, is_list) or ((flow.emptiness_test(t, l) or (None, None))[1] is False) for t, l in cs)
+                    ok_ids = ok_ids and present and all(flow.asserts_ok(t, l, is_list) or ((flow.emptiness_test(t, l) or (None, None))[1] is False) for t, l in cs0)
                 ok_ids = ok_ids and n_some >= 1
             if nm == "get_assertion":
                 # an empty allow list must mean "no list": the non-emptiness filter is required
